@@ -150,6 +150,8 @@ class Fragment(AbstractApplication):
             return
         if not (ctr.bundle.primary.bundle_flags & PrimaryBlock.Flag.IS_FRAGMENT):
             return
+        # a fragment itself is never delivered, whatever becomes of it below
+        del ctr.actions['deliver']
 
         final_ident = ctr.bundle_ident()[:3]
         frag_offset = ctr.bundle.primary.fragment_offset
